@@ -122,6 +122,8 @@ func VH_C08_Consume() {
 		vAssume(false)
 	}
 	wire := w.all()
+	capBytes := vInt("cap")
+	vAssume(capBytes >= 1 && capBytes <= 48)
 	run := func(kind int) (bool, int) {
 		r := &vhStream{enc: enc}
 		r.feed(wire, true)
@@ -134,6 +136,8 @@ func VH_C08_Consume() {
 			_, err = m.GetClassAdRaw(vhCtx)
 		case 2:
 			err = m.SkipClassAdRaw(vhCtx)
+		case 3:
+			_, err = getClassAdFromMessageWithMaxSize(m, capBytes, vhCtx)
 		}
 		if err := m.ensureData(vhCtx, 0); err != nil {
 			_ = err
@@ -152,4 +156,12 @@ func VH_C08_Consume() {
 	vAssert(vImplies(okA && okC, leftA == leftC), "skipping-receiver-consumes-what-the-parsing-receiver-consumes")
 	vAssert(vImplies(okA, okC), "skipping-receiver-accepts-what-the-parsing-receiver-accepts")
 	vAssert(vImplies(okC && okB, leftB == leftC), "skip-and-raw-agree")
+	// the size-limited parsing receiver (used for every handshake ad): whatever it
+	// accepts, the unlimited one accepts, and it has consumed exactly the same bytes
+	okD, leftD := run(3)
+	if okD {
+		vCover("bounded-receiver-accepts")
+	}
+	vAssert(vImplies(okD, okA), "bounded-receiver-accepts-only-what-the-unbounded-one-accepts")
+	vAssert(vImplies(okD && okA, leftD == leftA), "bounded-receiver-consumes-what-the-unbounded-one-consumes")
 }
